@@ -1366,7 +1366,12 @@ def _m_int(ctx, args, kwargs):
             # all-digit string (CPython also accepts sign, blanks and underscores: those
             # inputs are outside the modelled domain and end up on the other branch)
             return SInt(n)
-        ctx.unsupported("int(str) for a string that is not all digits")
+        # not all digits: CPython still accepts a sign, surrounding blanks and underscores; every
+        # other text raises ValueError.  Over-approximated: either outcome, any value.
+        if ctx.choose(2, "int(non-digit text)") == 0:
+            ctx.py_raise(ValueError, "invalid literal for int() with base 10")
+        ctx.havoc_notes.add("int(str) on text that is not all digits: any int or ValueError")
+        return ctx.fresh_int("int_of_text")
     if isinstance(v, SBytes):
         ctx.unsupported("int(bytes)")
     if isinstance(v, (SObj, Opaque)) or v is None:
